@@ -15,26 +15,41 @@ package protobuf
 // The shared leaf conversions carry thin contracts (what the result guarantees to
 // its callers); their frames are assumed (noframe): they only build new values.
 
+// be32(b): the big-endian unsigned value of the four bytes of b.
+//@ pred be32is(b []byte, v int) = len(b) == 4 && v == b[0] * 16777216 + b[1] * 65536 + b[2] * 256 + b[3]
 //@ func ToIntSlice
 //@   noframe
+//@   ensures result1 == nil ==> len(result0) == len(backends) && forall i int :: 0 <= i && i < len(backends) ==> be32is(backends[i], result0[i])
+//@   loop 1
+//@     modifies fresh
+//@     invariant len(ints) == len(backends) && fresh(arr(ints)) && off(ints) == 0 && forall k int :: 0 <= k && k < $i ==> be32is(backends[k], ints[k])
 
+// bigOf(b): the integer whose big-endian bytes are b. pbBal(y, p): y is what the protobuf Balance p denotes.
+//@ pred pbBal(y []channel.Bal, p *Balance) = len(y) == len(p.Balance) && forall j int :: 0 <= j && j < len(y) ==> y[j] != nil && val(y[j]) == bigOf(p.Balance[j])
 //@ func ToBalance
 //@   noframe
 //@   ensures nonNilBals(balance) && nonNeg(balance)
+//@   ensures protoBalance != nil ==> pbBal(balance, protoBalance)
 //@   loop 1
 //@     modifies balance[*]
 //@     invariant fresh(arr(balance)) && off(balance) == 0 && forall k int :: 0 <= k && k < $i ==> balance[k] != nil && val(balance[k]) >= 0
+//@     invariant protoBalance != nil ==> len(balance) == len(protoBalance.Balance) && forall k int :: 0 <= k && k < $i ==> val(balance[k]) == bigOf(protoBalance.Balance[k])
 
+//@ pred pbBals(y channel.Balances, p *Balances) = len(y) == len(p.Balances) && forall i int :: 0 <= i && i < len(y) ==> p.Balances[i] != nil ==> pbBal(y[i], p.Balances[i])
 //@ func ToBalances
 //@   noframe
 //@   ensures nonNilBalances(balances) && forall i int :: 0 <= i && i < len(balances) ==> nonNeg(balances[i])
+//@   ensures protoBalances != nil ==> pbBals(balances, protoBalances)
 //@   loop 1
 //@     modifies balances[*]
 //@     invariant fresh(arr(balances)) && off(balances) == 0 && forall k int :: 0 <= k && k < $i ==> nonNilBals(balances[k]) && nonNeg(balances[k])
+//@     invariant protoBalances != nil ==> len(balances) == len(protoBalances.Balances) && forall k int :: 0 <= k && k < $i ==> protoBalances.Balances[k] != nil ==> pbBal(balances[k], protoBalances.Balances[k])
 
 //@ func ToSubAlloc
 //@   noframe
 //@   ensures nonNilBals(subAlloc.Bals) && nonNeg(subAlloc.Bals)
+//@   ensures err == nil && protoSubAlloc != nil ==> subAlloc.ID == idBytes(protoSubAlloc.Id) && (protoSubAlloc.Bals != nil ==> pbBal(subAlloc.Bals, protoSubAlloc.Bals)) &&
+//@     (protoSubAlloc.IndexMap != nil ==> len(subAlloc.IndexMap) == len(protoSubAlloc.IndexMap.IndexMap) && forall i int :: 0 <= i && i < len(subAlloc.IndexMap) ==> subAlloc.IndexMap[i] == protoSubAlloc.IndexMap.IndexMap[i])
 
 //@ func ToWalletAddr
 //@   noframe
@@ -75,3 +90,106 @@ package protobuf
 //@   requires r != nil
 //@   modifies ghost("rpos")
 //@   callsite Unmarshal : rpos(r) == old(rpos(r)) + 2 + len(b) && (streaming() ==> forall i int :: 0 <= i && i < len(b) ==> b[i] == streamAt(r, old(rpos(r)) + 2 + i))
+
+// ---------------------------------------------------------------------------
+// Conversion lemmas (C14): To(From(x)) equals x for the value types of the protobuf serializer. The From functions get
+// functional contracts (what the message holds), the To functions the converse; the lemma functions compose them.
+// ---------------------------------------------------------------------------
+//@ func FromIndexMap
+//@   ensures len(protoIndexMap) == len(indexMap) && fresh(arr(protoIndexMap)) && forall i int :: 0 <= i && i < len(indexMap) ==> protoIndexMap[i] == indexMap[i]
+//@   loop 1
+//@     modifies protoIndexMap[*]
+//@     invariant len(protoIndexMap) == len(indexMap) && fresh(arr(protoIndexMap)) && off(protoIndexMap) == 0 && forall k int :: 0 <= k && k < $i ==> protoIndexMap[k] == indexMap[k]
+//@ func ToIndexMap
+//@   noframe
+//@   ensures err == nil ==> len(indexMap) == len(protoIndexMap) && forall i int :: 0 <= i && i < len(protoIndexMap) ==> indexMap[i] == protoIndexMap[i]
+//@   ensures (forall i int :: 0 <= i && i < len(protoIndexMap) ==> protoIndexMap[i] <= 65535) ==> err == nil
+//@   loop 1
+//@     modifies indexMap[*]
+//@     invariant len(indexMap) == len(protoIndexMap) && fresh(arr(indexMap)) && off(indexMap) == 0 && forall k int :: 0 <= k && k < $i ==> indexMap[k] == protoIndexMap[k]
+//@ func verifPBIndexMap
+//@   ensures err == nil && len(y) == len(x) && forall i int :: 0 <= i && i < len(x) ==> y[i] == x[i]
+
+//@ func FromBalance
+//@   noframe
+//@   ensures err == nil ==> protoBalance != nil && fresh(protoBalance) && len(protoBalance.Balance) == len(balance) &&
+//@     forall i int :: 0 <= i && i < len(balance) ==> balance[i] != nil && val(balance[i]) >= 0 && bigOf(protoBalance.Balance[i]) == val(balance[i])
+//@   ensures nonNilBals(balance) && nonNeg(balance) ==> err == nil
+//@   loop 1
+//@     modifies fresh
+//@     invariant protoBalance != nil && fresh(protoBalance) && len(protoBalance.Balance) == len(balance) && fresh(arr(protoBalance.Balance)) && off(protoBalance.Balance) == 0
+//@     invariant forall k int :: 0 <= k && k < $i ==> balance[k] != nil && val(balance[k]) >= 0 && bigOf(protoBalance.Balance[k]) == val(balance[k])
+//@ func verifPBBalance
+//@   requires nonNilBals(x) && nonNeg(x)
+//@   ensures fromErr == nil && len(y) == len(x) && forall i int :: 0 <= i && i < len(x) ==> y[i] != nil && val(y[i]) == val(x[i])
+
+//@ pred fromBal(p *Balance, x []channel.Bal) = p != nil && len(p.Balance) == len(x) && forall j int :: 0 <= j && j < len(x) ==> x[j] != nil && val(x[j]) >= 0 && bigOf(p.Balance[j]) == val(x[j])
+//@ func FromBalances
+//@   noframe
+//@   ensures err == nil ==> protoBalances != nil && fresh(protoBalances) && len(protoBalances.Balances) == len(balances) && forall i int :: 0 <= i && i < len(balances) ==> fromBal(protoBalances.Balances[i], balances[i])
+//@   ensures nonNilBalances(balances) && (forall i int :: 0 <= i && i < len(balances) ==> nonNeg(balances[i])) ==> err == nil
+//@   loop 1
+//@     modifies fresh
+//@     invariant err == nil && protoBalances != nil && fresh(protoBalances) && len(protoBalances.Balances) == len(balances) && fresh(arr(protoBalances.Balances)) && off(protoBalances.Balances) == 0
+//@     invariant forall k int :: 0 <= k && k < $i ==> fromBal(protoBalances.Balances[k], balances[k])
+//@ func verifPBBalances
+//@   requires nonNilBalances(x) && forall i int :: 0 <= i && i < len(x) ==> nonNeg(x[i])
+//@   ensures fromErr == nil && len(y) == len(x) && forall i, j int :: 0 <= i && i < len(x) && 0 <= j && j < len(x[i]) ==> len(y[i]) == len(x[i]) && y[i][j] != nil && val(y[i][j]) == val(x[i][j])
+
+// Sub-allocations: the ID's bytes, the index map, the balances.
+//@ pred fromSub(p *SubAlloc, x channel.SubAlloc) = p != nil && len(p.Id) == 32 && idBytes(p.Id) == x.ID && p.IndexMap != nil && len(p.IndexMap.IndexMap) == len(x.IndexMap) &&
+//@   (forall i int :: 0 <= i && i < len(x.IndexMap) ==> p.IndexMap.IndexMap[i] == x.IndexMap[i]) && fromBal(p.Bals, x.Bals)
+//@ func FromSubAlloc
+//@   noframe
+//@   ensures err == nil ==> protoSubAlloc != nil && fresh(protoSubAlloc) && fromSub(protoSubAlloc, subAlloc)
+//@   ensures nonNilBals(subAlloc.Bals) && nonNeg(subAlloc.Bals) ==> err == nil
+//@ pred pbSubEq(y channel.SubAlloc, x channel.SubAlloc) = y.ID == x.ID && len(y.Bals) == len(x.Bals) && len(y.IndexMap) == len(x.IndexMap) &&
+//@   (forall i int :: 0 <= i && i < len(x.Bals) ==> y.Bals[i] != nil && val(y.Bals[i]) == val(x.Bals[i])) &&
+//@   (forall i int :: 0 <= i && i < len(x.IndexMap) ==> y.IndexMap[i] == x.IndexMap[i])
+//@ func verifPBSubAlloc
+//@   requires nonNilBals(x.Bals) && nonNeg(x.Bals)
+//@   inlines ToSubAlloc
+//@   ensures fromErr == nil && toErr == nil && pbSubEq(y, x)
+
+// Allocations. bytesId(b): the identity of the content of b (marshalOf(x) iff b is what x's marshaler produced).
+//@ pred fromAlloc(p *Allocation, x channel.Allocation) = p != nil && len(p.Backends) == len(x.Backends) && len(p.Assets) == len(x.Assets) && len(p.Locked) == len(x.Locked) &&
+//@   (forall i int :: 0 <= i && i < len(x.Backends) ==> be32is(p.Backends[i], x.Backends[i])) &&
+//@   (forall i int :: 0 <= i && i < len(x.Assets) ==> bytesId(p.Assets[i]) == marshalOf(x.Assets[i])) &&
+//@   (forall l int :: 0 <= l && l < len(x.Locked) ==> fromSub(p.Locked[l], x.Locked[l])) &&
+//@   p.Balances != nil && len(p.Balances.Balances) == len(x.Balances) && (forall i int :: 0 <= i && i < len(x.Balances) ==> fromBal(p.Balances.Balances[i], x.Balances[i]))
+//@ func FromAllocation
+//@   noframe
+//@   requires nonNilAssets(alloc.Assets) && forall i int :: 0 <= i && i < len(alloc.Backends) ==> 0 <= alloc.Backends[i] && alloc.Backends[i] <= 4294967295
+//@   ensures err == nil ==> protoAlloc != nil && fresh(protoAlloc) && fromAlloc(protoAlloc, alloc)
+//@   loop 1
+//@     modifies fresh
+//@     invariant protoAlloc != nil && fresh(protoAlloc) && len(protoAlloc.Backends) == len(alloc.Backends) && fresh(arr(protoAlloc.Backends)) && off(protoAlloc.Backends) == 0
+//@     invariant forall k int :: 0 <= k && k < $i ==> be32is(protoAlloc.Backends[k], alloc.Backends[k]) && fresh(arr(protoAlloc.Backends[k]))
+//@   loop 2
+//@     modifies fresh
+//@     invariant err == nil && protoAlloc != nil && fresh(protoAlloc) && len(protoAlloc.Backends) == len(alloc.Backends) && len(protoAlloc.Assets) == len(alloc.Assets) && fresh(arr(protoAlloc.Assets)) && off(protoAlloc.Assets) == 0
+//@     invariant forall k int :: 0 <= k && k < len(alloc.Backends) ==> be32is(protoAlloc.Backends[k], alloc.Backends[k])
+//@     invariant forall k int :: 0 <= k && k < $i ==> bytesId(protoAlloc.Assets[k]) == marshalOf(alloc.Assets[k])
+//@   loop 3
+//@     modifies fresh
+//@     invariant err == nil && protoAlloc != nil && fresh(protoAlloc) && len(protoAlloc.Backends) == len(alloc.Backends) && len(protoAlloc.Assets) == len(alloc.Assets) && len(protoAlloc.Locked) == len(alloc.Locked) && fresh(arr(protoAlloc.Locked)) && off(protoAlloc.Locked) == 0
+//@     invariant forall k int :: 0 <= k && k < len(alloc.Backends) ==> be32is(protoAlloc.Backends[k], alloc.Backends[k])
+//@     invariant forall k int :: 0 <= k && k < len(alloc.Assets) ==> bytesId(protoAlloc.Assets[k]) == marshalOf(alloc.Assets[k])
+//@     invariant forall k int :: 0 <= k && k < $i ==> fromSub(protoAlloc.Locked[k], alloc.Locked[k])
+//@ func verifPBAllocation
+//@   requires validAlloc(x) && nonNilAssets(x.Assets) && nonNilBalances(x.Balances) && nonNilLocked(x.Locked) && len(x.Backends) == len(x.Assets)
+//@   requires forall i int :: 0 <= i && i < len(x.Backends) ==> 0 <= x.Backends[i] && x.Backends[i] <= 4294967295
+//@   modifies *
+//@   inlines ToAllocation
+//@   ensures fromErr == nil && toErr == nil ==> y != nil && allocRT(*y, x)
+//@   loop ToAllocation.1
+//@     modifies fresh, ghost("unmarshalledFrom"), ghost("unmarshalled")
+//@     invariant fromAlloc(protoAlloc, x) && alloc != nil && fresh(alloc) && len(alloc.Backends) == len(x.Backends) && len(alloc.Assets) == len(x.Assets) && fresh(arr(alloc.Assets)) && off(alloc.Assets) == 0
+//@     invariant forall k int :: 0 <= k && k < len(x.Backends) ==> alloc.Backends[k] == x.Backends[k]
+//@     invariant forall k int :: 0 <= k && k < $i ==> alloc.Assets[k] != nil && allocated(payload(alloc.Assets[k])) && unmarshalledFrom(alloc.Assets[k]) == marshalOf(x.Assets[k])
+//@   loop ToAllocation.2
+//@     modifies fresh
+//@     invariant fromAlloc(protoAlloc, x) && alloc != nil && fresh(alloc) && len(alloc.Backends) == len(x.Backends) && len(alloc.Assets) == len(x.Assets) && len(alloc.Locked) == len(x.Locked) && fresh(arr(alloc.Locked)) && off(alloc.Locked) == 0
+//@     invariant forall k int :: 0 <= k && k < len(x.Backends) ==> alloc.Backends[k] == x.Backends[k]
+//@     invariant forall k int :: 0 <= k && k < len(x.Assets) ==> alloc.Assets[k] != nil && allocated(payload(alloc.Assets[k])) && unmarshalledFrom(alloc.Assets[k]) == marshalOf(x.Assets[k])
+//@     invariant forall l int :: 0 <= l && l < $i ==> subEq(alloc.Locked[l], x.Locked[l])
